@@ -161,13 +161,19 @@ func NewWorld(tb simkit.TB, tr *simkit.Trace) *World {
 
 func MemOpener() func(ctx int) ethdb.Database {
 	dbs := map[int]ethdb.Database{}
+	g := &GlobalLog{}
 	return func(ctx int) ethdb.Database {
 		if dbs[ctx] == nil {
-			dbs[ctx] = NewMemSimDisk(locOf(ctx), quietLogger())
+			d := NewMemSimDisk(locOf(ctx), quietLogger())
+			d.ID, d.G = ctx, g
+			dbs[ctx] = d
 		}
 		return dbs[ctx]
 	}
 }
+
+// Disk returns the SimDisk behind context ctx of the node.
+func (n *Node) Disk(ctx int) *SimDisk { return n.DBs[ctx].(*SimDisk) }
 
 func DefaultNodeConfig(name string) NodeConfig {
 	cfg := NodeConfig{Name: name, Difficulty: 3000, TxPool: core.DefaultTxPoolConfig,
